@@ -180,7 +180,7 @@ func (a *absoluteQuery) Properties() queryProp {
 type ancestorQuery struct {
 	name     string
 	iterator func() NodeNavigator
-	table    map[uint64]bool
+	table    map[string]bool
 
 	Self      bool
 	Input     query
@@ -189,7 +189,7 @@ type ancestorQuery struct {
 
 func (a *ancestorQuery) Select(t iterator) NodeNavigator {
 	if a.table == nil {
-		a.table = make(map[uint64]bool)
+		a.table = make(map[string]bool)
 	}
 
 	for {
@@ -217,7 +217,7 @@ func (a *ancestorQuery) Select(t iterator) NodeNavigator {
 		}
 
 		for node := a.iterator(); node != nil; node = a.iterator() {
-			node_id := getHashCode(node.Copy())
+			node_id := getNodeKey(node.Copy())
 			if _, ok := a.table[node_id]; !ok {
 				a.table[node_id] = true
 				return node
@@ -1194,14 +1194,14 @@ type unionQuery struct {
 func (u *unionQuery) Select(t iterator) NodeNavigator {
 	if u.iterator == nil {
 		var list []NodeNavigator
-		var m = make(map[uint64]bool)
+		var m = make(map[string]bool)
 		root := t.Current().Copy()
 		for {
 			node := u.Left.Select(t)
 			if node == nil {
 				break
 			}
-			code := getHashCode(node.Copy())
+			code := getNodeKey(node.Copy())
 			if _, ok := m[code]; !ok {
 				m[code] = true
 				list = append(list, node.Copy())
@@ -1213,7 +1213,7 @@ func (u *unionQuery) Select(t iterator) NodeNavigator {
 			if node == nil {
 				break
 			}
-			code := getHashCode(node.Copy())
+			code := getNodeKey(node.Copy())
 			if _, ok := m[code]; !ok {
 				m[code] = true
 				list = append(list, node.Copy())
@@ -1436,8 +1436,17 @@ func writeKeyPart(sb *bytes.Buffer, s string) {
 	sb.WriteString(s)
 }
 
-func getHashCode(n NodeNavigator) uint64 {
+// getNodeKey returns the identity of a node within its document: its type, its names (and, for a
+// node that is not an element, its value), and the position of the node and of each of its
+// ancestors among their siblings. Union and ancestor:: use it to tell whether they have seen a
+// node before. (It used to be reduced to a 64-bit hash, which made two different nodes the same
+// node whenever their keys collided, and it did not contain the node type, so that an attribute
+// x="x" and a first text child "x" of one element had the same key with navigators that report a
+// text node's data as its name.)
+func getNodeKey(n NodeNavigator) string {
 	var sb bytes.Buffer
+	sb.WriteString(strconv.Itoa(int(n.NodeType())))
+	sb.WriteByte(':')
 	switch n.NodeType() {
 	case AttributeNode, TextNode, CommentNode:
 		writeKeyPart(&sb, n.Prefix())
@@ -1477,8 +1486,14 @@ func getHashCode(n NodeNavigator) uint64 {
 			sb.WriteString(strconv.Itoa(d))
 		}
 	}
+	return sb.String()
+}
+
+// getHashCode returns a 64-bit hash of the node key (kept for callers that want a number; the
+// engine itself compares keys).
+func getHashCode(n NodeNavigator) uint64 {
 	h := fnv.New64a()
-	h.Write(sb.Bytes())
+	h.Write([]byte(getNodeKey(n)))
 	return h.Sum64()
 }
 
